@@ -56,6 +56,7 @@ PARTS = {
     "BioConsert[Copeland,KwikSort]": ["Copeland", "KwikSortRandom"],
     "BioConsert[PickAPerm]": ["PickAPerm"],
     "BioConsert[KwikSort,Borda]": ["KwikSortRandom", "Borda"],
+    "BioConsert[BioConsert,BioConsert[Borda]]": ["BioConsert", "BioCo"],
     "BioCo": ["Borda"],
     "ParCons": ["BioConsert"],
     "ParCons(bound=0)": ["BioConsert"],
@@ -64,7 +65,8 @@ PARTS = {
     "ParCons(bound=0,aux=BioCo)": ["BioCo"],
 }
 LEAF_SITE = {"BordaBucketId": "Borda"}
-MUST_REFUSE = ("Borda", "BordaBucketId", "PickAPerm", "BioCo", "BioConsert[PickAPerm]", "BioConsert[KwikSort,Borda]")
+MUST_REFUSE = ("Borda", "BordaBucketId", "PickAPerm", "BioCo", "BioConsert[PickAPerm]", "BioConsert[KwikSort,Borda]",
+               "BioConsert[BioConsert,BioConsert[Borda]]")
 BORDA_OK = [D.unifying(1.), D.unifying(.5), D.induced(1.), D.induced(.5)]
 
 
@@ -121,11 +123,52 @@ def declared(label, scheme, cache):
     return None
 
 
+def check_predseq(case):
+    """ONE object per configuration is asked about a sequence of schemes (scheme objects created and dropped one after the
+    other): every answer must be the one a fresh object gives for that scheme (no answer carried over between questions)"""
+    from bounded import adapt as A, algs
+    fails, evals = [], 0
+    order = case["order"]
+    for label in algs.CONFIGS:
+        with algs.cplex_mode(bool(algs.flags(label).get("standin"))):
+            try:
+                alg = algs.make(label)
+            except Exception as e:
+                if base.harness_exc(e):
+                    raise
+                continue
+            for k in order:
+                scheme = SCHEMES[k]
+                kind, fresh = ask(label, scheme)
+                if kind != "bool":
+                    continue                            # reported by the 'pred' cases
+                try:
+                    with A.quiet():
+                        got = alg.is_scoring_scheme_relevant_when_incomplete_rankings(A.mk_scheme(scheme))
+                except Exception as e:
+                    if base.harness_exc(e):
+                        raise
+                    got = "%s: %s" % (type(e).__name__, str(e)[:100])
+                evals += 1
+                if got is not fresh and got != fresh:
+                    fails.append({"clause": "C14.truthful.sequence", "site": label,
+                                  "detail": {"scheme": scheme, "answer_of_the_reused_object": got,
+                                             "answer_of_a_fresh_object": fresh,
+                                             "asked_before": [SCHEMES[j] for j in order[:order.index(k)]][-3:]}})
+                    break
+    return {"fails": fails, "key": "predseq|%s" % order, "nkeys": max(evals - 1, 0), "evals": evals, "sample": case}
+
+
 def gen_cases(tier, seed):
     kinds = list(base.NAME_KINDS)
     ns = len(SCHEMES)
     for s in SCHEMES:
         yield {"kind": "pred", "scheme": s}
+    rng_o = random.Random(seed * 31 + 14)
+    for _ in range(3 if tier == "quick" else 20):
+        order = list(range(ns))
+        rng_o.shuffle(order)
+        yield {"kind": "predseq", "order": order}
     i = 0
     for d in D.all_datasets(3, 2):
         picks = range(ns) if tier == "thorough" else [(i * 6 + j * 7) % ns for j in range(6)]
@@ -194,6 +237,8 @@ def check_pred(case):
 def check_case(case):
     if case["kind"] == "pred":
         return check_pred(case)
+    if case["kind"] == "predseq":
+        return check_predseq(case)
     from bounded import adapt as A, algs
     rankings, scheme, one_req = case["rankings"], case["scheme"], case["one"]
     exp_r, _ = A.expected_names(rankings)
